@@ -1,6 +1,7 @@
 // c16: dispatch and construction are type-safe.
 //
-// G  generated dispatch tables (builder operation sequences incl. ill-formed ones, local aliases with varying
+// G  generated dispatch tables (builder operation sequences incl. ill-formed ones, dispatches with 1..33 parameters, local types
+//    that refer to each other in every order of declaration incl. recursion, local aliases with varying
 //    definitions, blocks incl. block types that accept undef without OptionalBlock) and argument lists;
 //    histories of 2-4 functions in one context some of which fail to resolve; px.New / px.Call("new") / CoerceTo on every core type x argument lists.
 // D  the property evaluated directly on the implementation: the body that ran is the one of the first
@@ -185,8 +186,21 @@ func runDispatch(cfg *lib.Config, res *lib.Result, e *env, rng *lib.Rng) {
 			if coqCalls > 0 && len(fc.Calls) > coqCalls {
 				stride = len(fc.Calls)/coqCalls + 1
 			}
+			allWf := true
+			for _, d := range run.decls {
+				if wf, _ := d.wellFormed(); wf != "yes" {
+					allWf = false
+				}
+			}
 			for k := range fc.Calls {
-				if k%stride == 0 || run.bodyViol[k] != "" {
+				// the calls on which D failed always go to the model too
+				bad := run.bodyViol[k] != ""
+				if failed && allWf && !bad {
+					co := run.obs.Calls[k]
+					exp := e.expected(run, fc.Calls[k])
+					bad = (exp >= 0 && !(co.Class == "body" && co.Body == exp)) || (exp < 0 && co.Class != "argerror")
+				}
+				if k%stride == 0 || bad {
 					sub.Calls = append(sub.Calls, fc.Calls[k])
 					obs.Calls = append(obs.Calls, run.obs.Calls[k])
 				}
@@ -216,6 +230,25 @@ func runDispatch(cfg *lib.Config, res *lib.Result, e *env, rng *lib.Rng) {
 	res.Extra["dispatch_exhaustive_calls_each"] = len(calls)
 	res.Extra["dispatch_exhaustive_max_params"] = maxLen
 	res.CorrFiles = append(res.CorrFiles, cf.WriteTo(cfg.Out, "cases_dispatch_exhaustive"))
+
+	// local types that refer to each other, in every order of declaration; dispatches with many parameters
+	sf := dispatchFile(e)
+	fwd := forwardFns(rng.Fork())
+	for _, fc := range fwd {
+		process(sf, fc, "forward", 12)
+	}
+	res.Extra["dispatch_forward_functions"] = len(fwd)
+	lng := longFns(cfg.Thorough())
+	for i, fc := range lng {
+		n := 0
+		if cfg.Thorough() || i%3 == 0 {
+			n = 9
+		}
+		process(sf, fc, "long", n)
+	}
+	res.Extra["dispatch_long_functions"] = len(lng)
+	res.Extra["dispatch_long_max_params"] = longSizes(cfg.Thorough())[len(longSizes(cfg.Thorough()))-1]
+	res.CorrFiles = append(res.CorrFiles, sf.WriteTo(cfg.Out, "cases_dispatch_shapes"))
 
 	shards := 1
 	if cfg.Thorough() {
